@@ -194,6 +194,37 @@ pub fn gen(stream: &str, tier: &str, seed: u64) -> Vec<String> {
                     }
                 }
             }
+            // ONE representative (lowest and highest code point) for EVERY UTF-8 lead byte C2…F4, next to each
+            // syntax character: a byte-walking validator that mis-sizes one lead byte skips what follows it
+            {
+                let mut reps: Vec<char> = Vec::new();
+                for lead in 0xc2u32..=0xdf {
+                    reps.push(char::from_u32((lead & 0x1f) << 6).unwrap());
+                    reps.push(char::from_u32(((lead & 0x1f) << 6) | 0x3f).unwrap());
+                }
+                for lead in 0xe0u32..=0xef {
+                    let lo = ((lead & 0x0f) << 12).max(0x800);
+                    let hi = ((lead & 0x0f) << 12) | 0xfff;
+                    for c in [lo, hi] {
+                        if let Some(ch) = char::from_u32(if (0xd800..=0xdfff).contains(&c) { if c == lo { 0xd000 } else { 0xd7ff } } else { c }) {
+                            reps.push(ch);
+                        }
+                    }
+                }
+                for lead in 0xf0u32..=0xf4 {
+                    let lo = ((lead & 0x07) << 18).max(0x10000);
+                    let hi = (((lead & 0x07) << 18) | 0x3ffff).min(0x10ffff);
+                    reps.push(char::from_u32(lo).unwrap());
+                    reps.push(char::from_u32(hi).unwrap());
+                }
+                for c in reps {
+                    for x in ["+", "#", "/", "\0", "$", "a"] {
+                        for st in [format!("{}{}", c, x), format!("{}{}", x, c), format!("a/{}{}", c, x), format!("{}{}{}", c, c, x), format!("{}é{}", c, x), format!("$share/{}/{}{}", c, c, x)] {
+                            out.push(format!("{} {}", op, hex(st.as_bytes())));
+                        }
+                    }
+                }
+            }
             // characters an implementation might treat specially (BOM, non-characters, white space, …) at the
             // start, inside and at the end of representative texts
             for sp in crate::pgen::SPECIALS {
@@ -1126,6 +1157,21 @@ pub fn proto_names() -> Vec<Vec<u8>> {
             for fill in [0u8, b' ', 0xff] {
                 let mut n = base.to_vec();
                 n.extend(std::iter::repeat(fill).take(pad));
+                names.push(n);
+            }
+        }
+        for pad in 1..=4 {
+            for fill in [0u8, b' ', 0xff] {
+                // padding in FRONT, and one filler byte inserted at every interior position
+                let mut n: Vec<u8> = std::iter::repeat(fill).take(pad).collect();
+                n.extend_from_slice(base);
+                names.push(n);
+            }
+        }
+        for fill in [0u8, b' '] {
+            for at in 1..base.len() {
+                let mut n = base.to_vec();
+                n.insert(at, fill);
                 names.push(n);
             }
         }
